@@ -559,6 +559,9 @@ def fail_cases(rng, n):
             lastf = len(plan["folders"]) - 1
             off, plen = layout["blocks"][lastf][-1]
             if plen == 0: continue
+            # some member with bytes must need that block (an empty MSZIP folder has a 4-byte block nobody reads)
+            bstart = sum(u for (_, u) in plan["folders"][lastf][1][:-1])
+            if not any(m["folder"] == lastf and len(m["data"]) > 0 and m["offset"] + len(m["data"]) > bstart for m in mem): continue
             cut = off + 8 + plen // 2
             yield FailCase(kind, {"x.cab": cab[:cut]}, [b"x.cab"], mem, set(), set(), desc=f"file cut at {cut} of {len(cab)}")
 
@@ -713,11 +716,21 @@ def generate(ctx):
 def judge(ctx, meta, impl, model):
     return []
 
+def private_copy(exe, d):
+    """the harness directory is shared and is deleted when another check builds a harness for different sources
+    (lib/common.harness_dir drops `stale` builds); a long run keeps its own copy of the binary"""
+    try:
+        dst = os.path.join(d, "cabextract.bin")
+        shutil.copy2(exe, dst)
+        return dst
+    except OSError:
+        return exe
+
 def custom_run(ctx, res, cw):
     global ENV
     ENV = dict(os.environ, ASAN_OPTIONS="detect_leaks=0:abort_on_error=0", TZ="UTC", LC_ALL="C")
     viol, mism = [], []
-    exe = os.path.join(ctx.hdir, "cabextract")
+    exe = private_copy(os.path.join(ctx.hdir, "cabextract"), cw.dir)
     if not os.path.exists(exe):
         return viol, [("", {"family": "modes"}, Finding("mismatch", "the cabextract binary was not built"))]
     os.makedirs(FSROOT, exist_ok=True)
